@@ -3,7 +3,7 @@
 //! [MSC3488]: https://github.com/matrix-org/matrix-spec-proposals/pull/3488
 
 use js_int::UInt;
-use ruma_macros::{EventContent, StringEnum};
+use ruma_macros::{EventContent, OrdAsRefStr, PartialOrdAsRefStr, StringEnum};
 use serde::{Deserialize, Serialize};
 
 mod zoomlevel_serde;
@@ -179,7 +179,7 @@ impl AssetContent {
 
 /// The type of an asset.
 #[doc = include_str!(concat!(env!("CARGO_MANIFEST_DIR"), "/src/doc/string_enum.md"))]
-#[derive(Clone, Default, PartialEq, Eq, PartialOrd, Ord, StringEnum)]
+#[derive(Clone, Default, PartialEq, Eq, PartialOrdAsRefStr, OrdAsRefStr, StringEnum)]
 #[ruma_enum(rename_all = "m.snake_case")]
 #[non_exhaustive]
 pub enum AssetType {
